@@ -108,15 +108,8 @@ class SymTok(object):
     def realize(self):
         if self._idx is not None:
             return self._idx
-        e = self.e
-        while True:
-            m = e.model()
-            if m is None:
-                raise Infeasible()
-            v = m.eval(self.k, model_completion=True).as_long()
-            if e.branch(self.k == v):
-                self._idx = v
-                return v
+        self._idx = self.e.choose(self.k)
+        return self._idx
 
     @property
     def value(self):
@@ -148,7 +141,8 @@ def context(name):
     if name in _CTX:
         return _CTX[name]
     from shroud import ast, declast, typemap
-    lib = ast.LibraryNode()   # initialises typemaps, std::string, std::vector, size_t ...
+    typemap.initialize()       # as main_with_args does, before any node is built
+    lib = ast.LibraryNode()   # std::string, std::vector, size_t ...
     lib.add_declaration("typedef int TypeID")
     lib.add_declaration("enum Color { RED, BLUE }")
     cls = lib.add_declaration("class Class1")
@@ -158,7 +152,7 @@ def context(name):
     return _CTX[name]
 
 
-def run_parser(e, alpha, prefix_pairs, n, ctx="lib", entry="decl_statement"):
+def run_parser(e, alpha, prefix_pairs, n, ctx="lib", entry="decl_statement", suffix_pairs=()):
     """Drive the real Parser over prefix (concrete) + n symbolic tokens.
     Returns (node, tokens)."""
     from shroud import declast
@@ -176,6 +170,9 @@ def run_parser(e, alpha, prefix_pairs, n, ctx="lib", entry="decl_statement"):
         col += 2
         toks.append(st)
         syms.append(st)
+    for (t, v) in suffix_pairs:
+        toks.append(ConcTok(t, v, col))
+        col += len(v) + 1
     p = declast.Parser.__new__(declast.Parser)
     p.decl = "<symbolic token stream>"
     p.namespace = ns
@@ -188,9 +185,10 @@ def run_parser(e, alpha, prefix_pairs, n, ctx="lib", entry="decl_statement"):
     return node, syms
 
 
-def witness_pairs(e, alpha, prefix_pairs, n, model):
+def witness_pairs(e, alpha, prefix_pairs, n, model, suffix_pairs=()):
     out = list(prefix_pairs)
     for i in range(n):
         v = model.eval(z3.Int("k%d" % i), model_completion=True).as_long()
         out.append(alpha.pairs[v])
+    out.extend(suffix_pairs)
     return out
